@@ -1441,7 +1441,13 @@ struct TemplateCore {
                 } else if (evaluate(right, next_expr, expr->Operation) &&
                            evaluateExpression(left, right, expr->Operation)) {
                     expr = next_expr;
-                    continue;
+
+                    // The next operator belongs to this level only if it binds tighter than the caller's.
+                    if (previous_oper < expr->Operation) {
+                        continue;
+                    }
+
+                    return true;
                 }
 
                 return false;
